@@ -242,21 +242,26 @@ class Speller(object):
             return ('og', None, None, [('prop', 'TaxRange', name), it]), tuple(h[2])
         return it, tuple(h[2])
 
+    # every spelling method also returns the history with lineages and copies in the order they were written
+    # (the "ordered history"), which is what the spelling relation of coq/Spell.v is stated for
     def member(self, h, may_omit, may_omit_para):
-        """spelling of h as a member; returns (items, level) — items is a list because an omitted
+        """spelling of h as a member; returns (items, level, ordered history) — items is a list because an omitted
         sole-duplication HOG is spelt as its paralogGroup nest"""
         if h[0] == 'G':
             it, lv = self.gene(h)
-            return [it], lv
+            return [it], lv, h
         lins = h[2]
         if len(lins) == 1 and self.rng.random() < self.p_omit:
             if lins[0][0] == 'O' and may_omit:
                 self.stats['omitted'] += 1
-                return self.member(lins[0][1], True, may_omit_para)
+                its, lv, om = self.member(lins[0][1], True, may_omit_para)
+                return its, lv, ('H', h[1], [('O', om)])
             if lins[0][0] == 'P' and may_omit_para:
                 self.stats['omitted'] += 1
-                return [self.pg_nest(lins[0][1], self.child_taxon(h, lins[0]))], None
-        return [self.explicit(h)], tuple(h[1])
+                pg, ocs = self.pg_nest(lins[0][1], self.child_taxon(h, lins[0]))
+                return [pg], None, ('H', h[1], [('P', ocs)])
+        it, oh = self.explicit(h)
+        return [it], tuple(h[1]), oh
 
     def child_taxon(self, h, lin):
         m = lin[1][0] if lin[0] == 'P' else lin[1]
@@ -266,7 +271,7 @@ class Speller(object):
         """spell the copies of one duplication at taxon X within the side conditions"""
         for _ in range(20):
             spelt = [self.member(c, True, False) for c in cs]
-            lvls = [lv for _, lv in spelt]
+            lvls = [lv for _, lv, _ in spelt]
             if all(lv == X for lv in lvls):
                 return spelt
             if len(set(lvls)) >= 2 and mrca_paths(lvls) == X:
@@ -277,13 +282,16 @@ class Speller(object):
     def member_exact(self, h):
         if h[0] == 'G':
             it, lv = self.gene(h)
-            return [it], lv
-        return [self.explicit(h)], tuple(h[1])
+            return [it], lv, h
+        it, oh = self.explicit(h)
+        return [it], tuple(h[1]), oh
 
     def pg_nest(self, cs, X):
         spelt = self.copies(cs, X)
-        units = [its for its, _ in spelt]
+        units = [(its, oh) for its, _, oh in spelt]
         self.rng.shuffle(units)
+        ordered = [oh for _, oh in units]
+        units = [its for its, _ in units]
         self.stats['pg'] += 1
         # random bracketing: repeatedly wrap a proper run of consecutive units into a nested PG
         while len(units) >= 2 and self.rng.random() < 0.4:
@@ -299,7 +307,7 @@ class Speller(object):
         ann = self.pg_annots()
         pos = self.rng.randint(0, len(body))
         body[pos:pos] = ann
-        return ('pg', ('dn%d' % self.rng.randint(0, 999)) if self.rng.random() < 0.2 else None, body)
+        return ('pg', ('dn%d' % self.rng.randint(0, 999)) if self.rng.random() < 0.2 else None, body), ordered
 
     def pg_annots(self):
         # annotations written inside a paralogGroup attach to the enclosing orthologGroup: fresh keys only
@@ -314,28 +322,34 @@ class Speller(object):
         return out
 
     def explicit(self, h):
+        """-> (item, ordered history)"""
         lins = list(h[2])
         self.rng.shuffle(lins)
         body = []
+        olins = []
         single = len(lins) == 1
         for lin in lins:
             if lin[0] == 'O':
                 if single:
-                    its, _ = self.member_exact(lin[1])
+                    its, _, om = self.member_exact(lin[1])
                 else:
-                    its, _ = self.member(lin[1], True, True)
+                    its, _, om = self.member(lin[1], True, True)
                 body.extend(its)
+                olins.append(('O', om))
             else:
-                body.append(self.pg_nest(lin[1], self.child_taxon(h, lin)))
+                pg, ocs = self.pg_nest(lin[1], self.child_taxon(h, lin))
+                body.append(pg)
+                olins.append(('P', ocs))
         ann = self.annots()
         if self.rng.random() < self.p_label:
             self.stats['labels'] += 1
             ann.append(('prop', 'TaxRange', self.byp[tuple(h[1])].name))
         for a in ann:
             body.insert(self.rng.randint(0, len(body)), a)
+        oh = ('H', h[1], olins)
         if self.rng.random() < self.p_og_attr:
-            return ('og', None, self.group_id(), body)
-        return ('og', self.group_id(), ('og%d' % self.gid) if self.rng.random() < 0.1 else None, body)
+            return ('og', None, self.group_id(), body), oh
+        return ('og', self.group_id(), ('og%d' % self.gid) if self.rng.random() < 0.1 else None, body), oh
 
 
 def mrca_paths(paths):
@@ -366,6 +380,7 @@ class Case(object):
         self.stats = stats or {}
         self.consistent = consistent      # inside the domain the properties quantify over
         self.oma = False                  # load with species_resolve_mode="OMA"
+        self.ohists = None                # ordered histories, when the case was spelt by the Speller
 
     def named_tree(self):
         return self.tree if self.use_internal else synth_names(self.tree)
@@ -508,12 +523,14 @@ def spell_plan(rng, pl, explicit=False, tag='main', group_ids=None, p_reuse_ids=
     sp = Speller(rng, pl.named, explicit=explicit, **spell_kw)
     groups = []
     histories = []
+    ohists = []
     for k, h in enumerate(pl.hists):
-        it = sp.explicit(h)
+        it, oh = sp.explicit(h)
         if group_ids is not None:
             it = ('og', group_ids[k], None, it[3])
         groups.append(it)
         histories.append((it[1] if it[1] is not None else it[2], h))
+        ohists.append(oh)
     # nested groups may repeat the id of their own family (as pyham's own export writes them) or carry the id of
     # another family: only the ids of top-level groups identify families
     if groups and rng.random() < p_reuse_ids:
@@ -533,14 +550,17 @@ def spell_plan(rng, pl, explicit=False, tag='main', group_ids=None, p_reuse_ids=
     rng.shuffle(order)
     groups = [groups[i] for i in order]
     histories = [histories[i] for i in order]
+    ohists = [ohists[i] for i in order]
     species = [(n, sorted(gs, key=lambda x: rng.random())) for n, gs in pl.species]
     rng.shuffle(species)
     stats = dict(sp.stats)
     stats.update({'leaves': pl.nleaves, 'families': len(pl.hists), 'genes': pl.ngenes, 'singles': len(pl.singles),
                   'nodes': sum(1 for _ in pl.named.nodes()),
                   'dups': sum(count_dups(h) for h in pl.hists)})
-    return Case(pl.tree, species, groups, use_internal=pl.use_internal, histories=histories, singles=pl.singles,
-                tag=tag, stats=stats)
+    c = Case(pl.tree, species, groups, use_internal=pl.use_internal, histories=histories, singles=pl.singles,
+             tag=tag, stats=stats)
+    c.ohists = ohists          # histories in the order the groups list their members (for the spelling relation)
+    return c
 
 
 def gen_case(rng, nleaves=None, nfam=None, explicit=False, fancy_names=False, use_internal=None,
@@ -720,8 +740,9 @@ def enum_cases(max_leaves=3, max_dups=1, max_copies=2, cap=None, rng=None):
                             species.setdefault(byp[tuple(p)].name, []).append({'id': g})
                         sp = [(nm, gs) for nm, gs in species.items()]
                         stats = {'leaves': n, 'families': 1, 'genes': len(genes), 'dups': count_dups(h), 'exhaustive': 1}
-                        out.append(Case(tree, sp, [it], use_internal=True, histories=[('e%d' % k, h)], tag='exhaustive',
-                                        stats=stats))
+                        c = Case(tree, sp, [it], use_internal=True, histories=[('e%d' % k, h)], tag='exhaustive', stats=stats)
+                        c.ohists = [h]
+                        out.append(c)
     if cap is not None and len(out) > cap and rng is not None:
         out = rng.sample(out, cap)
     return out
